@@ -166,6 +166,12 @@ def run_iter(case, stats):
     nout = len(full.out)
     if tool != "cycle":
         judge(full, ("exhaust",), True)
+    # a function / key / predicate that is not callable at all: the TypeError of its first use is a failure like any
+    if nfn and spec["fns"][0] is not None and any(spec["srcs"]):
+        side = run_async_side(spec, flavours=flav, fn_flavours=["notcallable"] * nfn, log=False, outer_flavour=outer,
+                              steps=spec.get("steps"))
+        if side.term and side.term[0] == "raise":
+            judge(side, ("notcallable", side.term[1]), True)
     # early close after j items
     top = min(nout + 1, 6) if tool != "cycle" else 5
     for j in range(0, top + 1):
@@ -219,6 +225,11 @@ def run_agg(case, stats):
 
     full = run_async_side(spec, flavours=flav, fn_flavours=fnfl, log=False)
     judge(full, ("plain", full.term[0]))
+    if nfn and spec["fns"][0] is not None:
+        # a function / key that is not callable at all: the TypeError of its first use is an error like any other
+        side = run_async_side(spec, flavours=flav, fn_flavours=["notcallable"] * nfn, log=False)
+        if side.term[0] == "raise":
+            judge(side, ("notcallable", side.term[1]))
     probes = [("src", 0, full.srcs[0].uses)] + [("fn", i, fs.uses) for i, fs in enumerate(full.fns) if fs is not None]
     for kind, index, uses in probes:
         for k in range(1, uses + 1):
